@@ -253,6 +253,28 @@ def probe(sess, op):
                         except Exception:  # noqa: BLE001
                             continue
                         raise Violation(f"C08:existing-bookkeeping-addressable:{what}", f"{where}: {internal} at {gp} -> {r!r}", "rejected")
+                # nodes handed out for stored metadata objects (meta.values() of plain and of restricted views) are no
+                # user nodes: the container interface must not operate on them
+                if gp in m.meta and m.meta[gp]:
+                    for vname, view in (("plain", g), ("local_only", mc[gp].restrict(local_only=True))):
+                        try:
+                            n = list(view.meta.values())[0].node
+                        except Exception:  # noqa: BLE001
+                            continue
+                        if not hasattr(type(n), "meta"):
+                            continue  # a raw driver node (no container node)
+                        before = raw_snapshot(mc.__wrapped__)
+                        for what, fn in (("meta-attach", lambda: n.meta.__setitem__("verifother.thing", {"name": "x"})),
+                                         ("copy-as-source", lambda: mc.copy(n, "leaked_bookkeeping"))):
+                            try:
+                                fn()
+                                raised = False
+                            except Exception:  # noqa: BLE001
+                                raised = True
+                            after = raw_snapshot(mc.__wrapped__)
+                            if not raised or after != before:
+                                raise Violation(f"C08:bookkeeping-node-operable:{what}", f"{where}: node {n.name} from {vname} view of {gp}: "
+                                                f"raised={raised}, raw tree {'changed' if after != before else 'unchanged'}", "rejected without effect")
 
 
 def run_case(case, rec=None):
